@@ -32,11 +32,19 @@ R2 == Rec(<< Field("x", P("uint64")), Field("y", P("int32")) >>)                
 ROpt == Rec(<< Field("a", P("int32")), Field("o", Opt(P("int32"))), Field("s", Opt(P("string"))),
                Field("u", Union(<<Case("int32", P("int32")), Case("string", P("string"))>>, TRUE)) >>)
 REmpty == Rec(<< Field("only", P("bool")) >>)
+\* a record with a union field whose cases share a JSON kind (spelled generically, the first case becomes a type parameter)
+RGenU == Rec(<< Field("a", P("int32")), Field("u", Union(<<Case("float64", P("float64")), Case("int32", P("int32"))>>, FALSE)),
+                Field("w", Union(<<Case("string", P("string")), Case("date", P("date"))>>, TRUE)) >>)
 \* records made of fixed-size fields only ("plain old data"): candidates for memcpy / structured-dtype fast paths
 RPod == Rec(<< Field("a", P("uint8")), Field("b", P("float64")) >>)
 RPod2 == Rec(<< Field("c", P("complexfloat32")), Field("f", FVec(P("int8"), 3)), Field("g", P("float32")) >>)
 PodContainers == UNION { { Vec(r), FVec(r, 2), FArr(r, <<2, 2>>), NdArr(r, 1), NdArr(r, 2), DynArr(r), Opt(r), Map(P("string"), r) } : r \in {RPod, RPod2} }
-NamedTypes == PodContainers \cup { RPod, RPod2, E3, EU8, EI64, F3, FU64, R2, ROpt, REmpty, Alias(P("int32")), Alias(P("string")), Alias(Vec(P("float32"))) }
+\* records whose fields are other named types (they stay named when the record is spelled as a generic instance)
+RNamed == { Rec(<< Field("f", x), Field("g", P("int8")) >>) : x \in {E3, F3, Alias(P("int32")), Alias(Vec(P("float32"))), R2} }
+          \cup { Vec(Rec(<< Field("f", E3), Field("g", F3) >>)), Opt(Rec(<< Field("h", Alias(P("string"))) >>)),
+                 Alias(Rec(<< Field("f", E3), Field("g", P("int8")) >>)), Alias(Rec(<< Field("p", F3), Field("q", Alias(P("int32"))) >>)),
+                 Alias(Vec(Rec(<< Field("f", EU8) >>))) }
+NamedTypes == RNamed \cup PodContainers \cup { RGenU, Vec(RGenU), RPod, RPod2, E3, EU8, EI64, F3, FU64, R2, ROpt, REmpty, Alias(P("int32")), Alias(P("string")), Alias(Vec(P("float32"))) }
 
 KeyTypes == { P("string"), P("int32"), P("uint64"), P("int8"), Alias(P("string")) }
 
